@@ -72,6 +72,7 @@ class Harness(cm.BaseB):
         out.append({"kind": "rd"})
         out.append({"kind": "trseq"})
         out.append({"kind": "trmax"})
+        out.append({"kind": "evo"})
         return out
 
     def cases(self, chunk):
@@ -99,6 +100,12 @@ class Harness(cm.BaseB):
                         v = k * min(m1, m2) + d
                         if v > 0:
                             yield {"kind": "trseq", "m1": m1, "m2": m2, "v": fhex(v)}
+        elif chunk["kind"] == "evo":
+            # EVO script commands: a per-tip step above max_volume is refused with InvalidOperationError as well
+            for op in ("evo_aspirate", "evo_dispense"):
+                for m in (50, 950, 33.5):
+                    for vols in ("scalar_over", "first_over", "last_over", "at_limit", "scalar_at_limit", "ulp_over"):
+                        yield {"kind": "evo", "op": op, "m": m, "vols": vols}
         elif chunk["kind"] == "trmax":
             # wl.max_volume is re-assigned on the live worklist between two transfers of the same volume
             for dev in ("EvoWorklist", "FluentWorklist"):
@@ -161,6 +168,29 @@ class Harness(cm.BaseB):
         return f"pv:{min(len(res), 5)}steps", (f"pv{v!r}/{m}" if len(res) > 1 else None), V
 
     # -------------------------------------------------------------- end to end
+    def one_evo(self, case):
+        m = case["m"]
+        over = math.nextafter(m, math.inf) if case["vols"] == "ulp_over" else m + 0.5
+        vols = {"scalar_over": over, "first_over": [over, 10.0], "last_over": [10.0, over], "at_limit": [m, 10.0], "scalar_at_limit": m, "ulp_over": [10.0, over]}[case["vols"]]
+        oversized = case["vols"] not in ("at_limit", "scalar_at_limit")
+        lw = rt.Labware("L", 4, 2, min_volume=0, max_volume=1e6, initial_volumes=1e4 if case["op"] == "evo_aspirate" else 0)
+        wl = rt.EvoWorklist(max_volume=m)
+        exc = None
+        try:
+            getattr(wl, case["op"])(lw, ["A01", "B01"], (30, 2), [1, 2], vols, "LC")
+        except Exception as e:
+            exc = e
+        name = type(exc).__name__ if exc else "ok"
+        V = []
+        if oversized:
+            if name != "InvalidOperationError":
+                V.append(("C06/oversized-not-refused", f"{case['op']}(volumes={vols}) with max_volume={m} -> {name}"))
+            if len(wl):
+                V.append(("C06/oversized-not-refused", f"{case['op']}(volumes={vols}) with max_volume={m} left records {list(wl)}"))
+        elif exc is not None:
+            V.append(("C06/fitting-step-refused", f"{case['op']}(volumes={vols}) with max_volume={m} raised {name}"))
+        return f"evo:{case['vols']}:{name}", f"evo{case}", V
+
     def one_trmax(self, case):
         """the same worklist object, the same volume, max_volume assigned in between: the limit that counts is
         the one the worklist has when the transfer is requested"""
@@ -170,7 +200,13 @@ class Harness(cm.BaseB):
         wl.max_volume = case["m2"]
         o2, k2, V2 = self.one_tr({"kind": "tr", "dev": case["dev"], "v": case["v"], "m": case["m2"], "auto_split": case["auto_split"]}, wl=wl)
         V = V1 + [(c, f"after wl.max_volume = {case['m2']} (was {case['m1']}) on the live worklist: {d}") for c, d in V2]
-        return f"trmax:{o1}:{o2}", f"trmax{case}", V
+        # ... and the assigned limit stays in force after break records (the split transfer above, an explicit commit)
+        del wl[:]
+        wl.commit()
+        del wl[:]
+        o3, k3, V3 = self.one_tr({"kind": "tr", "dev": case["dev"], "v": case["v"], "m": case["m2"], "auto_split": case["auto_split"]}, wl=wl)
+        V += [(c, f"after wl.max_volume = {case['m2']} (was {case['m1']}), a transfer and commit(): {d}") for c, d in V3]
+        return f"trmax:{o1}:{o2}:{o3}", f"trmax{case}", V
 
     def one_tr(self, case, wl=None):
         v, m = fx(case["v"]), case["m"]
